@@ -851,9 +851,12 @@ def _send_stream_stub_server(writer, call_id, body):
         raise ConnectionError("send failed [contract of StreamWriter]")
 
 
-@contract("stepup/core/rpc.py::RPCServerConnection._send_loop", props=["C16"])
+@contract("stepup/core/rpc.py::RPCServerConnection._send_loop", props=["C16", "C15"])
 class server_send_loop:
     args = dict(self=_server_conn)
+    # C15: a request that was received in full is applied in full, also when its reply (or the reply of another call on
+    # the connection) can no longer be delivered: the loop that sends replies never cancels a call in flight
+    events = {"task.cancel": lambda e: False}
     env = dict(iter_until_stopped=lambda get, ev: ty.SeqOf(ty.TupleOf(ty.Int, FutureH)).fresh(cur().fresh_name("completed")),
                contextlib=_ContextlibStub(), _encode_body=_enc_body_may_fail,
                _send_stream_message=_send_stream_stub_server)
@@ -1248,3 +1251,24 @@ def connections_are_isolated():
                      and any(w in ast.unparse(c.func) for w in ("TaskGroup", "gather", "create_task", "ensure_future", "wait_for"))})
     out.append(("scan/connections_are_isolated/no_shared_task_group", not joined, f"joining constructs: {joined}"))
     return out
+
+
+@structural("C16/scan/reply_queue_is_unbounded", props=["C16"],
+            note="RPCServerConnection._completed is an asyncio.Queue without a size limit: put_nowait (the stand-in of the "
+                 "_queue_reply contract never fails) cannot raise QueueFull, so every completed call reaches the send loop "
+                 "however many calls complete in one turn of the event loop")
+def reply_queue_is_unbounded():
+    import ast
+
+    _, cls = extract.find_def("stepup/core/rpc.py", "RPCServerConnection")
+    fields = [n for n in cls.body if isinstance(n, ast.AnnAssign) and ast.unparse(n.target) == "_completed"]
+    ok = False
+    detail = "no field _completed"
+    if len(fields) == 1 and isinstance(fields[0].value, ast.Call):
+        kws = {k.arg: ast.unparse(k.value) for k in fields[0].value.keywords}
+        ok = kws.get("factory") == "asyncio.Queue" and "default" not in kws
+        detail = str(kws)
+    _, qr = extract.find_def("stepup/core/rpc.py", "RPCServerConnection._queue_reply")
+    handlers = [ast.unparse(h.type) if h.type else "bare" for t in ast.walk(qr) if isinstance(t, ast.Try) for h in t.handlers]
+    return [("scan/reply_queue_is_unbounded/factory_is_a_plain_queue", ok, detail),
+            ("scan/reply_queue_is_unbounded/queue_reply_has_no_failure_branch", not handlers, f"except clauses: {handlers}")]
